@@ -39,3 +39,196 @@ def selftest():
     assert matrix_allows("A", "0", "0") and not matrix_allows("2", "F", "1")
     assert len(MATRIX) > 40
     return True
+
+
+# ----------------------------------------------------------------------------------------------------------------
+# Exchange simulator (C17, C20).  Follows the FIX 4.4 order state change matrices for exactly the report kinds the
+# property lists.  Pure data in / pure data out: requests and reports are dicts {tag(int): value}; no asyncfix import.
+FINISHED = ("2", "4", "8", "C")
+
+
+class Exchange:
+    """One order at the exchange.  `step(action)` applies one enabled action and returns the reports it emits."""
+
+    def __init__(self):
+        self.status = None          # None (nothing received) | "A" | "0" | "1" | "2" | "4" | "8" | "9" | "C"
+        self.qty = self.price = None
+        self.cum = 0.0
+        self.leaves = 0.0
+        self.live_id = None
+        self.side = self.symbol = None
+        self.order_id = "OID1"
+        self.exec_n = 0
+        self.requests = []          # FIFO of request dicts not yet looked at
+        self.pending = None         # request being worked (acknowledged as pending): dict
+        self.anomalies = []         # requests that referred to a wrong OrigClOrdID / reused a ClOrdID
+        self.seen_ids = set()
+
+    def key(self):
+        return (self.status, self.qty, self.price, self.cum, self.leaves, self.live_id, self.exec_n,
+                tuple(tuple(sorted(r.items())) for r in self.requests), None if self.pending is None else tuple(sorted(self.pending.items())))
+
+    # -- reports
+    def _er(self, exec_type, ord_status, clord=None, orig=None, last_qty=None):
+        self.exec_n += 1
+        r = {35: "8", 37: self.order_id, 17: f"E{self.exec_n}", 150: exec_type, 39: ord_status, 11: clord or self.live_id,
+             54: self.side, 55: self.symbol, 14: self.cum, 151: self.leaves, 6: 0.0 if not self.cum else self.price, 38: self.qty, 44: self.price}
+        if orig:
+            r[41] = orig
+        if last_qty is not None:
+            r[32] = last_qty
+            r[31] = self.price
+        return r
+
+    def _rej(self, req, ord_status):
+        return {35: "9", 37: self.order_id if self.status is not None else "NONE", 11: req[11], 41: req[41], 39: ord_status,
+                434: "1" if req[35] == "F" else "2"}
+
+    def reported(self):
+        """OrdStatus to put on a report now (precedence: a pending cancel / replace outranks the working status)"""
+        if self.pending is not None:
+            return "6" if self.pending[35] == "F" else "E"
+        return self.status
+
+    # -- enabled actions
+    def actions(self):
+        a = []
+        if self.requests:
+            r = self.requests[0]
+            if r[35] == "D":
+                a += ["req:pending-new", "req:ack", "req:reject"]
+            elif self.pending is not None:
+                a += ["req:reject"]                    # a second request while one is being worked: rejected
+            elif self.status in FINISHED or self.status is None or (r[35] == "G" and self.status == "9") or r[41] != self.live_id or self.status == "A":
+                a += ["req:reject"]
+            else:
+                a += ["req:pending", "req:accept", "req:reject"]
+        if self.status == "A":
+            a += ["ack", "reject"]
+        if self.pending is not None:
+            a += ["pending:accept", "pending:reject"]
+        if self.status in ("0", "1"):
+            a += ["fill:partial", "fill:full"]
+            if self.pending is None:          # what status word an expiry / unsolicited cancel carries while a request is pending is not pinned down by the matrices
+                a += ["suspend", "expire", "cancel:unsolicited"]
+        if self.status == "9" and self.pending is None:
+            a += ["resume", "cancel:unsolicited"]
+        return a
+
+    def submit(self, req):
+        self.requests.append(dict(req))
+
+    def step(self, action):
+        out = []
+        if action.startswith("req:"):
+            r = self.requests.pop(0)
+            if r[11] in self.seen_ids:
+                self.anomalies.append(("clordid-reused", r[11]))
+            self.seen_ids.add(r[11])
+            if r[35] == "D":
+                self.qty, self.price, self.side, self.symbol = float(r[38]), float(r[44]), r[54], r[55]
+                self.live_id = r[11]
+                self.cum, self.leaves = 0.0, 0.0
+                if action == "req:pending-new":
+                    self.status = "A"
+                    out.append(self._er("A", "A"))
+                elif action == "req:ack":
+                    self.status, self.leaves = "0", self.qty
+                    out.append(self._er("0", "0"))
+                else:
+                    self.status = "8"
+                    out.append(self._er("8", "8"))
+                return out
+            if self.status is not None and r.get(41) != self.live_id:
+                self.anomalies.append(("wrong-origclordid", r.get(41), self.live_id))
+            if action == "req:reject":
+                st = self.status if self.status is not None else "8"
+                if self.pending is not None:
+                    st = self.reported()
+                out.append(self._rej(r, st))
+            elif action == "req:pending":
+                self.pending = r
+                out.append(self._er("6" if r[35] == "F" else "E", self.reported(), clord=r[11], orig=self.live_id))
+            else:
+                self.pending = r
+                out += self._accept()
+            return out
+        if action == "ack":
+            self.status, self.leaves = "0", self.qty
+            return [self._er("0", "0")]
+        if action == "reject":
+            self.status, self.leaves = "8", 0.0
+            return [self._er("8", "8")]
+        if action == "pending:accept":
+            return self._accept()
+        if action == "pending:reject":
+            r, self.pending = self.pending, None
+            return [self._rej(r, self.status)]
+        if action in ("fill:partial", "fill:full"):
+            q = self.leaves if action == "fill:full" else (self.leaves / 2 if self.leaves > 1 else self.leaves)
+            if q <= 0:
+                return []
+            self.cum += q
+            self.leaves = self.qty - self.cum
+            if self.leaves <= 1e-9:
+                self.leaves = 0.0
+            self.status = "2" if self.leaves == 0 else "1"
+            out.append(self._er("F", self.reported(), last_qty=q))
+            if self.status == "2" and self.pending is not None:
+                r, self.pending = self.pending, None
+                out.append(self._rej(r, "2"))          # too late to cancel / replace
+            return out
+        if action in ("expire", "cancel:unsolicited"):
+            code = "C" if action == "expire" else "4"
+            r, self.pending = self.pending, None
+            self.status, self.leaves = code, 0.0
+            out.append(self._er(code, code))
+            if r is not None:
+                out.append(self._rej(r, code))
+            return out
+        if action == "suspend":
+            self.status = "9"
+            return [self._er("9", "9")]
+        if action == "resume":
+            self.status = "1" if self.cum > 0 else "0"
+            return [self._er("D", self.status)]
+        raise AssertionError(action)
+
+    def _accept(self):
+        r, self.pending = self.pending, None
+        if self.status in FINISHED:
+            return [self._rej(r, self.status)]
+        if r[35] == "F":
+            orig = self.live_id
+            self.status, self.leaves = "4", 0.0
+            return [self._er("4", "4", clord=r[11], orig=orig)]
+        q, p = float(r[38]), float(r[44])
+        if q < self.cum:
+            return [self._rej(r, self.status)]
+        orig = self.live_id
+        self.qty, self.price = q, p
+        self.leaves = self.qty - self.cum
+        self.status = "2" if self.leaves == 0 else ("1" if self.cum > 0 else "0")
+        self.live_id = r[11]
+        return [self._er("5", self.status, clord=r[11], orig=orig)]
+
+
+def _selftest_exchange():
+    x = Exchange()
+    x.submit({35: "D", 11: "r--1", 38: 10, 44: 100.0, 54: "1", 55: "T"})
+    assert x.step("req:ack")[0][39] == "0" and x.leaves == 10
+    assert x.step("fill:partial")[0][14] == 5.0 and x.status == "1"
+    x.submit({35: "F", 11: "r--2", 41: "r--1", 38: 10})
+    r = x.step("req:pending")[0]
+    assert r[39] == "6" and r[11] == "r--2" and r[41] == "r--1"
+    f = x.step("fill:full")
+    assert f[0][39] == "6" and f[0][151] == 0.0 and f[1][35] == "9" and f[1][39] == "2" and x.pending is None
+    assert "fill:partial" not in x.actions()
+    return True
+
+
+_old_selftest = selftest
+
+
+def selftest():
+    return _old_selftest() and _selftest_exchange()
